@@ -1,6 +1,6 @@
 CONSTANTS
   NDocs = 24
-  NOperators = 35
+  NOperators = 38
   MaxSite = 5
 INIT Init
 NEXT Next
